@@ -277,6 +277,8 @@ def hard_failures(out):
         i = out.index("WARNING: DATA RACE")
         res.append(("race", out[i:i + 3000]))
     m = re.search(r"^(panic:|fatal error:).*", out, re.M)
+    if m and "HARNESS-WATCHDOG" in out[:m.start()]:
+        m = None      # stacks printed by the harness watchdog, not a panic
     if m:
         text = out[m.start():m.start() + 3000]
         # a panic raised by the harness itself (first non-runtime frame in harness code, or a pure helper
